@@ -5,6 +5,7 @@ usage: tools/selftest_seeded.py [--tier quick] [ids...]"""
 import glob
 import json
 import os
+import re
 import subprocess
 import sys
 import tempfile
@@ -20,7 +21,8 @@ def main():
     bad = 0
     for d in dirs:
         meta = json.load(open(os.path.join(d, 'meta.json')))
-        target = meta['breaks_property'] if meta.get('detected_by_target_check', True) else (meta.get('detected_by') or [meta['breaks_property']])[0]
+        own = meta['breaks_property']
+        others = [c for c in (meta.get('detected_by') or []) if c != own]
         wt = tempfile.mkdtemp(prefix='selftest_', dir='/tmp')
         os.rmdir(wt)
         try:
@@ -29,19 +31,23 @@ def main():
             if a.returncode:
                 print(f'{os.path.basename(d)}: PATCH DOES NOT APPLY'); bad += 1; continue
             env = dict(os.environ, VERIF_REPO=wt, VERIF_NO_EVIDENCE='1')
-            r = subprocess.run([os.path.join(ROOT, 'check'), target, '--tier', 'quick'], capture_output=True, text=True, env=env, cwd=ROOT)
-            ok = r.returncode == 1
-            first = next((l for l in r.stdout.splitlines() if l.startswith('VIOLATION')), '')[:160]
+            hits, keys_all, first = [], [], ''
+            for target in [own] + others:
+                r = subprocess.run([os.path.join(ROOT, 'check'), target, '--tier', 'quick'], capture_output=True, text=True, env=env, cwd=ROOT)
+                if r.returncode == 1:
+                    hits.append(target)
+                    first = first or next((l for l in r.stdout.splitlines() if l.startswith('VIOLATION')), '')[:160]
+                    keys_all += sorted(set(re.findall(r'VIOLATION property=(C\d+) .*? key=(\S+)', r.stdout)))
+                    if target == own:
+                        break           # the property's own check fires: no need to ask the others
+            ok = bool(hits)
             if '--write' in sys.argv:
-                import re
-                keys = sorted(set(re.findall(r'VIOLATION property=(C\d+) .*? key=(\S+)', r.stdout)))
-                if target == meta['breaks_property']:
-                    meta['detected_by_target_check'] = bool(ok)
+                meta['detected_by_target_check'] = own in hits
                 if ok:
-                    meta['detected_by'] = sorted(set((meta.get('detected_by') or []) + [target]))
-                    meta['first_violation_keys'] = [f'{p}:{k}' for p, k in keys][:3]
+                    meta['detected_by'] = hits if own in hits else sorted(set(hits))
+                    meta['first_violation_keys'] = [f'{p}:{k}' for p, k in keys_all][:3]
                 json.dump(meta, open(os.path.join(d, 'meta.json'), 'w'), indent=1)
-            print(f'{os.path.basename(d)}: {"DETECTED" if ok else "MISSED"} by {target} (exit {r.returncode}) {first}', flush=True)
+            print(f'{os.path.basename(d)}: {"DETECTED by " + ",".join(hits) if ok else "MISSED by " + ",".join([own] + others)} {first}', flush=True)
             bad += not ok
         finally:
             subprocess.run(['git', '-C', '/repo', 'worktree', 'remove', '--force', wt], capture_output=True)
